@@ -65,6 +65,15 @@ PATTERN = {  # class -> (lean constructor pattern with wildcards, {keyword: posi
     "Sort": ("sort", ["terms"]),
     "Identity": ("identity", []),
 }
+OP_FIELDS = {   # field name -> (accessor in Gen/OpsSupport.lean, type); each belongs to exactly one class
+    "tag": ("calcTag", "tag"),
+    "expression": ("calcExpr", "expr"),
+    "columns": ("projColumns", "cols"),
+    "predicate": ("selPred", "pred"),
+    "start": ("sliceStart", "nat"),
+    "stop": ("sliceStop", "optnat"),
+    "terms": ("sortTerms", "terms"),
+}
 OP_ATTRS = {
     "columns_required": ("columnsRequired", "cols"),
     "is_count_dependent": ("isCountDependent", "bool"),
@@ -136,6 +145,11 @@ class Method:
             if bty == "op" and e.attr in OP_ATTRS:
                 nm, ty = OP_ATTRS[e.attr]
                 return f"({base}).{nm}", ty
+            if bty == "op" and e.attr in OP_FIELDS:
+                # a field that only ONE operation class has (read under an `isinstance` test in the source):
+                # the total accessor of Gen/OpsSupport.lean
+                nm, ty = OP_FIELDS[e.attr]
+                return f"(UOp.{nm} {base})", ty
             if bty in ("expr", "pred") and e.attr == "columns_required":
                 return f"({base}).columnsRequired", "cols"
             if bty == "term" and e.attr == "expression":
@@ -213,10 +227,20 @@ class Method:
                 return self.expr(e.args[0])
             if fn == "isinstance" and len(e.args) == 2:
                 x, xt = self.expr(e.args[0])
-                k = ast.unparse(e.args[1])
-                if xt == "op" and k in PATTERN:
-                    return f"(UOp.is{k} {x})", "bool"
+                ks = ([ast.unparse(k) for k in e.args[1].elts] if isinstance(e.args[1], ast.Tuple)
+                      else [ast.unparse(e.args[1])])
+                if xt == "op" and ks and all(k in PATTERN for k in ks):
+                    # `isinstance(x, (A, B))` is `isinstance(x, A) or isinstance(x, B)`
+                    tests = [f"(UOp.is{k} {x})" for k in ks]
+                    return (tests[0] if len(tests) == 1 else "(" + " || ".join(tests) + ")"), "bool"
                 raise Untranslatable(f"isinstance {ast.unparse(e)}")
+            if (isinstance(e.func, ast.Attribute) and isinstance(e.func.value, ast.Name) and e.func.value.id == "self"
+                    and not e.keywords and e.func.attr.startswith("_")):
+                # a small private helper of the same class (statements of the accepted grammar, returning a
+                # value): inlined, its parameters bound to the translated arguments
+                inl = self.inline_helper(e.func.attr, e.args)
+                if inl is not None:
+                    return inl
             if fn == "Projection" and len(e.args) == 1:
                 x, xt = self.expr(e.args[0])
                 if xt != "cols":
@@ -272,9 +296,93 @@ class Method:
         """Subclass hook: dictionary entries specific to one kind of method."""
         return None
 
+    def inline_helper(self, name: str, args: list):
+        """Translate `self.<name>(args)` by inlining the helper's body; None if there is no such plain method."""
+        cls = getattr(self, "cls", None)
+        if cls is None:
+            return None
+        try:
+            f = inspect.getattr_static(cls, name)
+            if isinstance(f, (property, staticmethod, classmethod)):
+                return None
+            tree = ast.parse(textwrap.dedent(inspect.getsource(f)))
+        except (AttributeError, OSError, TypeError, SyntaxError):
+            return None
+        fdef = next((n for n in ast.walk(tree) if isinstance(n, ast.FunctionDef)), None)
+        if fdef is None or fdef.args.kwonlyargs or fdef.args.vararg or fdef.args.kwarg:
+            return None
+        params = [a.arg for a in fdef.args.args][1:]
+        if len(params) != len(args):
+            return None
+        depth = getattr(self, "_inline_depth", 0)
+        if depth > 3:
+            raise Untranslatable(f"helper {name}: nesting too deep")
+        # the parameters are replaced by the argument expressions in a copy of the helper's body
+        import copy
+
+        subst = dict(zip(params, args))
+
+        class Subst(ast.NodeTransformer):
+            def visit_Name(self, node):
+                if isinstance(node.ctx, ast.Load) and node.id in subst:
+                    return copy.deepcopy(subst[node.id])
+                return node
+
+        body = [Subst().visit(copy.deepcopy(b)) for b in fdef.body]
+        saved_env, saved_ret, saved_end = dict(self.env), self.ret, self.default_end
+        holder: dict = {}
+
+        def ret(x):
+            code, t = self.expr(x)
+            if holder.setdefault("type", t) != t:
+                raise Untranslatable(f"helper {name} returns values of different kinds")
+            return code
+
+        def end():
+            raise Untranslatable(f"control reaches the end of helper {name}")
+
+        try:
+            self._inline_depth = depth + 1
+            self.ret, self.default_end = ret, end
+            code = self.block(body, end)
+        finally:
+            self.env, self.ret, self.default_end = saved_env, saved_ret, saved_end
+            self._inline_depth = depth
+        if "type" not in holder:
+            raise Untranslatable(f"helper {name} returns nothing")
+        return code, holder["type"]
+
+    def helper_return(self, name: str):
+        """The expression returned by the zero-argument private method `name` of the class being translated when
+        its body is a single `return <expression>`; None otherwise."""
+        cls = getattr(self, "cls", None)
+        if cls is None:
+            return None
+        try:
+            f = inspect.getattr_static(cls, name)
+            if isinstance(f, property):
+                return None
+            tree = ast.parse(textwrap.dedent(inspect.getsource(f)))
+        except (AttributeError, OSError, TypeError, SyntaxError):
+            return None
+        fdef = next((n for n in ast.walk(tree) if isinstance(n, ast.FunctionDef)), None)
+        if fdef is None or len(fdef.args.args) != 1:
+            return None
+        body = [b for b in fdef.body
+                if not (isinstance(b, ast.Expr) and isinstance(b.value, ast.Constant) and isinstance(b.value.value, str))]
+        if len(body) == 1 and isinstance(body[0], ast.Return) and body[0].value is not None:
+            return body[0].value
+        return None
+
     # ------------------------------------------------------------------ statements (CPS)
     def ret(self, e) -> str:
         """Translate `return e` for the method kind."""
+        if isinstance(e, ast.IfExp):
+            # `return a if c else b`  is  `if c: return a` / `return b`
+            c, ct = self.expr(e.test)
+            if ct != "bool":
+                raise Untranslatable("condition is not a bool")
+            return f"(if {c} then {self.ret(e.body)} else {self.ret(e.orelse)})"
         if self.name == "commute":
             x, t = self.expr(e)
             if t != "commutator":
@@ -337,6 +445,8 @@ class Method:
             b = self.block(s.orelse, k)
             self.env = saved
             return f"(if {c} then {a} else {b})"
+        if isinstance(s, ast.AnnAssign) and s.value is None:
+            return k()       # a bare annotation `x: T` does nothing
         if isinstance(s, (ast.Assign, ast.AnnAssign)):
             target = s.targets[0] if isinstance(s, ast.Assign) else s.target
             if not isinstance(target, ast.Name):
